@@ -51,13 +51,41 @@ def gen_number(rng, kind):
     c = rng.choice([0, 0, 1, -1, 2, -3]) if rng.random() < 0.35 else (rng.choice([-1, 1]) * mag(rng))
     if kind in ("int", "npint"):
         c = int(round(c)) if abs(c) >= 1 else rng.choice([0, 1, -1, 2, -2])
-    return {"kind": kind, "c": c}
+    o = {"kind": kind, "c": c}
+    # every numpy scalar kind the library lists as a number: the operand's VALUE is what counts, whatever its storage type
+    if kind == "npint" and rng.random() < 0.6:
+        dt = rng.choice(INT_DTYPES)
+        o["dtype"] = dt
+        o["c"] = fit_int(c, dt)
+    elif kind in ("npfloat", "arr0") and rng.random() < 0.3:
+        o["dtype"] = "float32"
+        o["c"] = float(np.float32(c))
+    return o
+
+
+INT_DTYPES = ["int8", "int16", "int32", "uint8", "uint16", "uint32", "uint64"]
+INT_LIMIT = {"int8": 100, "uint8": 200, "int16": 30000, "uint16": 60000}
+
+
+def fit_int(c, dt):
+    c = int(c)
+    lim = INT_LIMIT.get(dt, 10 ** 9)
+    c = max(-lim, min(lim, c))
+    return abs(c) if dt.startswith("u") else c
 
 
 def gen_array(rng, k=None):
     k = k or rng.randint(1, 5)
-    return {"kind": "arr", "l": [rng.choice([0.0, 1.0, -2.0]) if rng.random() < 0.25 else rng.choice([-1, 1]) * mag(rng)
-                                  for _ in range(k)]}
+    o = {"kind": "arr", "l": [rng.choice([0.0, 1.0, -2.0]) if rng.random() < 0.25 else rng.choice([-1, 1]) * mag(rng)
+                              for _ in range(k)]}
+    r = rng.random()
+    if r < 0.25:      # integer storage (signed and unsigned)
+        dt = rng.choice(INT_DTYPES + ["int64"])
+        o["dtype"] = dt
+        o["l"] = [float(fit_int(round(v), dt)) for v in o["l"]]
+    # (float32 arrays are left out: numpy 1.x evaluates a 0-d float64 endpoint with a float32 array in single precision, so the result
+    #  carries float32 rounding - the operand's own precision, which the property's rounding clause allows; see DESIGN 10.6 round 7)
+    return o
 
 
 def build(o):
@@ -76,13 +104,13 @@ def build(o):
     if k == "float":
         return float(o["c"])
     if k == "npfloat":
-        return np.float64(o["c"])
+        return getattr(np, o.get("dtype", "float64"))(o["c"])
     if k == "npint":
-        return np.int64(o["c"])
+        return getattr(np, o.get("dtype", "int64"))(o["c"])
     if k == "arr0":
-        return np.array(float(o["c"]))
+        return np.array(float(o["c"]), dtype=o.get("dtype", "float64"))
     if k == "arr":
-        return np.array(o["l"], dtype=float)
+        return np.array(o["l"], dtype=o.get("dtype", "float64"))
     if k == "arr2d":
         return np.array(o["l"], dtype=float).reshape(o["dims"])
     if k == "bool":
